@@ -248,9 +248,10 @@ def main(argv):
             lines.append(f'UNDECIDED property={prop} no obligation was generated (vacuous run)')
         ev['coverage']['evaluations'] = 1
         ev['coverage']['distinct_nontrivial'] = 0
-    os.makedirs(os.path.join(VERIF, 'evidence'), exist_ok=True)
-    with open(os.path.join(VERIF, 'evidence', prop + '.json'), 'w') as f:
-        json.dump(ev, f, indent=1)
+    if not os.environ.get('VERIF_NO_EVIDENCE'):    # (set only by tools_seed_eval.py: seeded runs must not overwrite the evidence)
+        os.makedirs(os.path.join(VERIF, 'evidence'), exist_ok=True)
+        with open(os.path.join(VERIF, 'evidence', prop + '.json'), 'w') as f:
+            json.dump(ev, f, indent=1)
     for l in lines:
         print(l)
     print(f'{prop}: {"OK" if exit_code == 0 else "VIOLATION" if exit_code == 1 else "UNDECIDED"} '
